@@ -26,6 +26,8 @@ func propC01(r *Report, tier string) {
 	ruleUpsidedownDeleteKeys(r, "K8-upsidedown-delete-keys")
 	ruleStoredTypeTags(r)
 	ruleNilGuardProtectsItsSubject(r, "K12-nil-guard-subject", "index/upsidedown", "index/scorch")
+	rulePersistIntroducerCarry(r, in, "K9b-persist-carry")
+	ruleKVGetAbsenceIsNil(r, "K12-kv-get-absence-is-nil")
 	ruleMergeUsingAlignment(r, "K14-merge-input-alignment")
 	ruleFlushableAlignment(r, "K14-merge-input-alignment")
 	ruleParallelSlicesResetTogether(r, "K14-parallel-slices-reset-together", "index/scorch", "index/upsidedown")
